@@ -21,8 +21,14 @@ def main():
         m = json.load(open(mp))
         if a.names and m["seed"] not in a.names:
             continue
-        prop = m["seed"].split("-")[0].rstrip("abc")
+        prop = m["seed"].split("-")[0][:3]
         patch = os.path.join(os.path.dirname(mp), "patch.diff")
+        if m.get("neutralised_at_head_by"):
+            # a later repair of /repo made this change harmless (its own demonstration passes at HEAD + patch); it was
+            # caught on the tree it was made against, see meta.json
+            rows.append((m["seed"], prop, "harmless-at-HEAD-since-" + m["neutralised_at_head_by"], ""))
+            print("%-50s %s  harmless at HEAD since repair %s" % (m["seed"], prop, m["neutralised_at_head_by"]), flush=True)
+            continue
         wt = tempfile.mkdtemp(prefix="esv-seedsweep-")
         os.rmdir(wt)
         r = sh(["git", "-C", "/repo", "worktree", "add", "--detach", wt, "HEAD", "-q"])
@@ -43,7 +49,7 @@ def main():
             sh(["git", "-C", "/repo", "worktree", "remove", "--force", wt])
             shutil.rmtree(wt, ignore_errors=True)
     json.dump([dict(seed=s, property=p, verdict=v, first=f) for s, p, v, f in rows], open(os.path.join(VERIF, "seeded", "sweep.json"), "w"), indent=1)
-    bad = [r for r in rows if r[2] not in ("caught", "patch-does-not-apply-to-HEAD")]
+    bad = [r for r in rows if r[2] not in ("caught", "patch-does-not-apply-to-HEAD") and not r[2].startswith("harmless-at-HEAD")]
     print("%d seeded changes: %d caught, %d missed/inconclusive, %d no longer apply" % (
         len(rows), sum(r[2] == "caught" for r in rows), len(bad), sum(r[2] == "patch-does-not-apply-to-HEAD" for r in rows)))
     return 1 if bad else 0
